@@ -344,6 +344,13 @@ def finish(res, harness, t0, level="model_checking"):
                 reproduced = True if r.returncode == 1 else (False if r.returncode == 0 else None)
                 if reproduced:
                     mm["detail"] = "[reproduced only with the preceding calls of its process: state carried between calls] " + mm["detail"]
+            if reproduced is False and not mm.get("respec"):
+                # sequential replays pass: did it come from calls overlapping in time (families replayed by concurrent workers on
+                # private inputs)?  replay the case and its context in 8 goroutines at once
+                r = run([harness, "one", "-par", path], stdout=subprocess.PIPE, stderr=subprocess.STDOUT, text=True)
+                if r.returncode == 1:
+                    reproduced = True
+                    mm["detail"] = "[reproduced only when several goroutines make these calls at the same time on private inputs: shared state between concurrent calls] " + mm["detail"]
             if reproduced is False and mm.get("respec"):
                 # the same wrong answer did not come back (e.g. it depends on hash iteration order): execute the session again,
                 # several times, and let the TRACE SPECIFICATION judge the fresh observations
